@@ -35,10 +35,12 @@ from harness.common import guarded, ratj
 RULE = (
     "cases from one SplitMix64 stream: algorithm in A2C/PPO/DQN/SAC/TD3, n_envs 1..3, rollout size 1..6 "
     "(off-policy: train_freq in steps or, single env, in episodes), scripted training envs (episode ends scripted), "
-    "random callback tree (depth<=3, fan-out<=3: CallbackList / EveryNTimesteps(1..7) / EvalCallback(freq 0..5, "
-    "on-new-best and after-eval children, scripted eval env) / CheckpointCallback(1..5) / StopTrainingOnMaxEpisodes / "
-    "recording leaf that answers False at scripted n_calls), root passed as object or as python list, 1-3 learn() "
-    "calls with/without reset_num_timesteps, totals not multiples of the rollout size. "
+    "random callback tree (depth<=3, fan-out<=3: CallbackList / EveryNTimesteps(1..7) / LogEveryNTimesteps / "
+    "EvalCallback(freq 0..5, on-new-best and after-eval children, scripted eval env so that the sequence of mean rewards "
+    "is scripted) / CheckpointCallback(1..5) / StopTrainingOnMaxEpisodes(1..4) / StopTrainingOnRewardThreshold and "
+    "StopTrainingOnNoModelImprovement(max 0..2, min 0..2) below EvalCallbacks / ConvertCallback around a recording "
+    "function / recording leaf that answers False at scripted n_calls), root passed as object, python list, bare "
+    "function or None, 1-3 learn() calls with/without reset_num_timesteps, totals not multiples of the rollout size. "
     "non-trivial = tree with >= 2 levels and (a stop request that fired or a second learn call); "
     "distinct = distinct canonical case"
 )
@@ -94,35 +96,50 @@ def gen_eval_script(rng):
     return out
 
 
-def gen_tree(rng, depth, counter, horizon, under_best=False, top=False):
-    """horizon ~ number of vectorised steps the whole case performs (for picking stop points)"""
+THRESHOLDS = [-1.0, 0.0, 0.5, 1.0, 2.0, 3.0, 4.0]
+
+
+def gen_tree(rng, depth, counter, horizon, under_best=False, top=False, pe=False):
+    """horizon ~ number of vectorised steps the whole case performs (for picking stop points);
+    pe: this position's `parent` attribute is an EvalCallback (directly or through CallbackLists), so the two
+    callbacks that read `parent.best_mean_reward` may be placed here"""
     nid = counter[0]
     counter[0] += 1
+    pe_kinds = [("thr", 5), ("noimp", 6)] if pe else []
     if depth <= 0:
-        kind = rng.weighted([("leaf", 8), ("ckpt", 2), ("maxep", 1)])
+        kind = rng.weighted([("leaf", 7), ("fn", 2), ("ckpt", 2), ("maxep", 1.5)] + pe_kinds)
     else:
-        kind = rng.weighted([("leaf", 3 if not top else 1.5), ("list", 4 if not top else 6), ("everyN", 3), ("eval", 3),
-                             ("ckpt", 1 if not top else 0.5), ("maxep", 0.6 if not top else 0.3)])
-    if kind == "leaf":
+        kind = rng.weighted([("leaf", 3 if not top else 1.5), ("fn", 1), ("list", 4 if not top else 6), ("everyN", 3),
+                             ("eval", 3), ("logN", 0.7), ("ckpt", 1 if not top else 0.5),
+                             ("maxep", 0.8 if not top else 0.3)] + pe_kinds)
+    if kind in ("leaf", "fn"):
         stops = []
         if rng.chance(0.3):
             for _ in range(rng.randint(1, 2)):
                 stops.append(rng.randint(1, max(1, horizon)))
-        return {"t": "leaf", "id": nid, "stops": sorted(set(stops))}
+        return {"t": kind, "id": nid, "stops": sorted(set(stops))}
     if kind == "ckpt":
         return {"t": "ckpt", "id": nid, "freq": rng.randint(1, 5)}
     if kind == "maxep":
         return {"t": "maxep", "id": nid, "max": rng.randint(1, 4)}
+    if kind == "thr":
+        return {"t": "thr", "id": nid, "thr": rng.choice(THRESHOLDS)}
+    if kind == "noimp":
+        return {"t": "noimp", "id": nid, "max": rng.randint(0, 2), "min": rng.randint(0, 2)}
+    if kind == "logN":
+        cid = counter[0]
+        counter[0] += 1
+        return {"t": "logN", "id": nid, "cid": cid, "n": rng.randint(1, 7)}
     if kind == "list":
         n = rng.weighted([(0, 0.3), (1, 2), (2, 4), (3, 3)])
-        return {"t": "list", "id": nid, "ch": [gen_tree(rng, depth - 1, counter, horizon, under_best) for _ in range(n)]}
+        return {"t": "list", "id": nid, "ch": [gen_tree(rng, depth - 1, counter, horizon, under_best, pe=pe) for _ in range(n)]}
     if kind == "everyN":
         return {"t": "everyN", "id": nid, "n": rng.randint(1, 7),
                 "ch": gen_tree(rng, depth - 1, counter, max(1, horizon // 2), under_best)}
     # eval
-    best = gen_tree(rng, depth - 1, counter, 2, True) if rng.chance(0.6) else None
-    after = gen_tree(rng, depth - 1, counter, max(1, horizon // 2), under_best) if rng.chance(0.7) else None
-    return {"t": "eval", "id": nid, "freq": rng.weighted([(0, 0.5), (1, 2), (2, 3), (3, 2), (4, 1), (5, 1)]),
+    best = gen_tree(rng, depth - 1, counter, 2, True, pe=True) if rng.chance(0.6) else None
+    after = gen_tree(rng, depth - 1, counter, max(1, horizon // 2), under_best, pe=True) if rng.chance(0.7) else None
+    return {"t": "eval", "id": nid, "freq": rng.weighted([(0, 0.5), (1, 3), (2, 3), (3, 2), (4, 1), (5, 1)]),
             "best": best, "after": after, "script": gen_eval_script(rng), "n_ep": rng.randint(1, 3)}
 
 
@@ -139,11 +156,21 @@ def gen_case(rng, widen=False):
         learns.append({"total": rng.randint(1, 24 if not widen else 40), "reset": True if i == 0 and rng.chance(0.7) else rng.chance(0.5)})
     horizon = max(2, sum(l["total"] for l in learns) // n_envs)
     counter = [0]
-    tree = gen_tree(rng, rng.weighted([(0, 1), (1, 3), (2, 4), (3, 3)]), counter, horizon, top=True)
+    rootmode = "obj"
+    if rng.chance(0.04):
+        tree = {"t": "none", "id": 0}
+        rootmode = "none"
+    else:
+        tree = gen_tree(rng, rng.weighted([(0, 1), (1, 3), (2, 4), (3, 3)]), counter, horizon, top=True)
+        if tree["t"] == "list" and rng.chance(0.25):
+            rootmode = "pylist"
+        elif tree["t"] == "fn" and rng.chance(0.6):
+            rootmode = "fn"
     return {
+        "rootmode": rootmode,
         "algo": algo, "n_envs": n_envs, "unit": unit, "k": k,
         "scripts": [gen_env_script(rng, unit == "episode") for _ in range(n_envs)],
-        "tree": tree, "pylist": tree["t"] == "list" and rng.chance(0.25),
+        "tree": tree, "pylist": rootmode == "pylist",
         "learns": learns, "learning_starts": rng.choice([0, 0, 3, 100]), "seed": rng.randint(0, 2**31 - 1),
     }
 
@@ -155,6 +182,10 @@ def gen_cases(ctx):
 # ------------------------------------------------------------------------------------------------
 # tree helpers
 # ------------------------------------------------------------------------------------------------
+def rootmode(case):
+    return case.get("rootmode") or ("pylist" if case.get("pylist") else "obj")
+
+
 def children_of(nd):
     """[(edge, child)] of present children"""
     t = nd["t"]
@@ -162,42 +193,68 @@ def children_of(nd):
         return [("list", c) for c in nd["ch"]]
     if t == "everyN":
         return [("event", nd["ch"])]
+    if t == "logN":
+        # LogEveryNTimesteps = EveryNTimesteps around ConvertCallback(self._log_data)
+        return [("event", {"t": "fn", "id": nd["cid"], "stops": [], "log": True})]
     if t == "eval":
         return [(e, nd[e]) for e in ("best", "after") if nd[e] is not None]
     return []
 
 
 def index_tree(tree):
-    """id -> (node, depth, under_best, under_event)"""
+    """id -> (node, depth, under_best, under_event, id of the EvalCallback its `parent` attribute is, or None)"""
     out = {}
 
-    def go(nd, depth, ub, ue):
-        out[nd["id"]] = (nd, depth, ub, ue)
+    def go(nd, depth, ub, ue, pe, nl):
+        out[nd["id"]] = (nd, depth, ub, ue, pe)
+        lists_above[nd["id"]] = nl
         for edge, c in children_of(nd):
-            go(c, depth + 1, ub or edge == "best", ue or edge != "list")
+            cpe = pe if edge == "list" else (nd["id"] if nd["t"] == "eval" else None)
+            go(c, depth + 1, ub or edge == "best", ue or edge != "list", cpe, nl + 1 if edge == "list" else 0)
 
-    go(tree, 0, False, False)
+    lists_above = {}
+    go(tree, 0, False, False, None, 0)
+    index_tree.lists_above = lists_above
     return out
+
+
+def valid_tree(tree):
+    """the two callbacks that read `parent.best_mean_reward` must have an EvalCallback as `parent`"""
+    return all(v[4] is not None for v in index_tree(tree).values() if v[0]["t"] in ("thr", "noimp"))
 
 
 def lean_tree(nd):
     if nd is None:
         return None
     t = nd["t"]
-    if t == "leaf":
-        return {"t": "leaf", "id": nd["id"], "stops": nd["stops"]}
+    if t == "none":
+        return None
+    if t in ("leaf", "fn"):
+        return {"t": t, "id": nd["id"], "stops": nd["stops"]}
     if t == "list":
         return {"t": "list", "id": nd["id"], "ch": [lean_tree(c) for c in nd["ch"]]}
     if t == "everyN":
         return {"t": "everyN", "id": nd["id"], "n": nd["n"], "ch": lean_tree(nd["ch"])}
+    if t == "logN":
+        return {"t": "everyN", "id": nd["id"], "n": nd["n"], "ch": {"t": "fn", "id": nd["cid"], "stops": []}}
     if t == "eval":
         return {"t": "eval", "id": nd["id"], "freq": nd["freq"], "best": lean_tree(nd["best"]), "after": lean_tree(nd["after"])}
     if t == "ckpt":
         return {"t": "ckpt", "id": nd["id"], "freq": nd["freq"]}
+    if t == "thr":
+        return {"t": "thr", "id": nd["id"], "thr": ratj(F(nd["thr"]))}
+    if t == "noimp":
+        return {"t": "noimp", "id": nd["id"], "max": nd["max"], "min": nd["min"]}
     return {"t": "maxep", "id": nd["id"], "max": nd["max"]}
 
 
 def shrink_candidates(case):
+    for c in _shrink_candidates(case):
+        if valid_tree(c["tree"]):
+            yield c
+
+
+def _shrink_candidates(case):
     if len(case["learns"]) > 1:
         for i in range(len(case["learns"])):
             c = copy.deepcopy(case)
@@ -213,6 +270,7 @@ def shrink_candidates(case):
         c = copy.deepcopy(case)
         c["tree"] = copy.deepcopy(sub)
         c["pylist"] = False
+        c["rootmode"] = "obj"
         yield c
 
     def edits(nd):
@@ -294,7 +352,7 @@ class Rec:
         e["loc"] = loc_of(node)
 
 
-def instrument(node, nid, rec, observable_answer=False):
+def instrument(node, nid, rec, observable_answer=False, answer_loc=True):
     node._nid = nid
     rec.nodes[nid] = node
     for ep in EPS:
@@ -309,7 +367,8 @@ def instrument(node, nid, rec, observable_answer=False):
                 ok = True
                 if observable_answer and _ep == "on_step":
                     # StopTrainingOnMaxEpisodes: its answer is what a user observes of it
-                    rec.events.append([nid, "step", int(node.n_calls), int(node.num_timesteps), loc_of(node), bool(r)])
+                    rec.events.append([nid, "step", int(node.n_calls), int(node.num_timesteps),
+                                       loc_of(node) if answer_loc else 0, bool(r)])
                 return r
             finally:
                 rec.end(e, node, r, not ok)
@@ -318,8 +377,10 @@ def instrument(node, nid, rec, observable_answer=False):
 
 
 def build_tree(nd, rec, tmpdir, case):
-    from stable_baselines3.common.callbacks import (BaseCallback, CallbackList, CheckpointCallback, EvalCallback,
-                                                    EveryNTimesteps, StopTrainingOnMaxEpisodes)
+    from stable_baselines3.common.callbacks import (BaseCallback, CallbackList, CheckpointCallback, ConvertCallback,
+                                                    EvalCallback, EveryNTimesteps, LogEveryNTimesteps,
+                                                    StopTrainingOnMaxEpisodes, StopTrainingOnNoModelImprovement,
+                                                    StopTrainingOnRewardThreshold)
     from stable_baselines3.common.vec_env import DummyVecEnv
 
     from harness.envs import EnvFn
@@ -377,15 +438,41 @@ def build_tree(nd, rec, tmpdir, case):
             o = CheckpointCallback(nd["freq"], os.path.join(tmpdir, "ck"), name_prefix=f"ck{nd['id']}")
         elif t == "maxep":
             o = StopTrainingOnMaxEpisodes(nd["max"])
+        elif t == "fn":
+            o = ConvertCallback(make_fn(nd["id"], nd["stops"], rec))
+        elif t == "thr":
+            o = StopTrainingOnRewardThreshold(nd["thr"], verbose=0)
+        elif t == "noimp":
+            o = StopTrainingOnNoModelImprovement(nd["max"], nd["min"], verbose=0)
+        elif t == "logN":
+            o = LogEveryNTimesteps(nd["n"])
+            instrument(o.callback, nd["cid"], rec, observable_answer=True)
         else:
             env = DummyVecEnv([EnvFn(env_id=7, obs_kind="box1", act_kind=act_kind(case), script=nd["script"], check_actions=False)])
             o = EvalCallback(env, callback_on_new_best=go(nd["best"]) if nd["best"] is not None else None,
                              callback_after_eval=go(nd["after"]) if nd["after"] is not None else None,
                              n_eval_episodes=nd["n_ep"], eval_freq=nd["freq"], verbose=0, warn=False)
-        instrument(o, nd["id"], rec, observable_answer=(t == "maxep"))
+        instrument(o, nd["id"], rec, observable_answer=t in ("maxep", "thr", "noimp"), answer_loc=(t == "maxep"))
         return o
 
     return go(nd)
+
+
+def make_fn(nid, stops, rec):
+    """an old-style function callback: records what it can read from `locals`, counts its own invocations and answers
+    False at scripted counts"""
+    st = {"fc": 0}
+    stops = set(stops)
+
+    def f(locals_, globals_):
+        st["fc"] += 1
+        ret = st["fc"] not in stops
+        infos = locals_.get("infos")
+        loc = int(infos[0]["k"]) if infos is not None else 0
+        rec.events.append([nid, "step", st["fc"], int(locals_["self"].num_timesteps), loc, ret])
+        return ret
+
+    return f
 
 
 def act_kind(case):
@@ -448,26 +535,47 @@ def run_impl(ctx, case):
     def spy_init(self, callback, progress_bar=False):
         cb = orig_init(self, callback, progress_bar)
         if not hasattr(cb, "_nid"):
-            # learn() was given a python list: the CallbackList made by _init_callback is the root (fresh every call)
+            # learn() was given a python list / a bare function / None: the CallbackList or ConvertCallback made by
+            # _init_callback is the root (a fresh object on every call)
             instrument(cb, case["tree"]["id"], rec)
         return cb
+
+    from stable_baselines3.common.off_policy_algorithm import OffPolicyAlgorithm
+    from stable_baselines3.common.on_policy_algorithm import OnPolicyAlgorithm
+
+    dump_orig = {c: c.dump_logs for c in (OnPolicyAlgorithm, OffPolicyAlgorithm)}
+
+    def make_spy_dump(orig):
+        def spy_dump(self, *a, **k):
+            if rec.stack:
+                rec.stack[-1]["dumps"] = rec.stack[-1].get("dumps", 0) + 1
+            return orig(self, *a, **k)
+        return spy_dump
 
     out = {"learns": [], "tmpdir": tmpdir}
     try:
         model, venv = make_model(case)
         rec.model, rec.env0 = model, venv.envs[0]
-        if case["pylist"]:
+        mode = rootmode(case)
+        if mode == "pylist":
             root = [build_tree(c, rec, tmpdir, case) for c in case["tree"]["ch"]]
+        elif mode == "fn":
+            root = make_fn(case["tree"]["id"], case["tree"]["stops"], rec)
+        elif mode == "none":
+            root = None
         else:
             root = build_tree(case["tree"], rec, tmpdir, case)
         cbmod.evaluate_policy, BaseAlgorithm.save, BaseAlgorithm._init_callback = spy_eval, spy_save, spy_init
+        for c, o in dump_orig.items():
+            c.dump_logs = make_spy_dump(o)
         idx = index_tree(case["tree"])
         for l in case["learns"]:
             e0, r0, s0, v0 = len(rec.events), len(rec.roots), len(rec.snaps), len(rec.evals)
             raised = None
             prev_num = int(model.num_timesteps)
             try:
-                model.learn(l["total"], callback=root, reset_num_timesteps=l["reset"])
+                # log_interval huge: the only dump_logs() calls are those of LogEveryNTimesteps
+                model.learn(l["total"], callback=root, reset_num_timesteps=l["reset"], log_interval=10**9)
             except AssertionError as ex:
                 raised = f"AssertionError: {str(ex)[:120]}"
                 rec.stack.clear()
@@ -477,11 +585,13 @@ def run_impl(ctx, case):
                     continue
                 o = rec.nodes[nid]
                 t = idx[nid][0]["t"]
-                extra = (loc_of(o) if t == "leaf" else int(o.last_time_trigger) if t == "everyN"
-                         else int(o.n_episodes) if t == "maxep" else 0)
+                if t == "none":
+                    continue
+                extra = (loc_of(o) if t in ("leaf", "fn") else int(o.last_time_trigger) if t in ("everyN", "logN")
+                         else int(o.n_episodes) if t == "maxep" else int(o.no_improvement_evals) if t == "noimp" else 0)
                 attrs.append([nid, int(o.n_calls), int(o.num_timesteps), extra])
-                if t == "eval":
-                    b = o.best_mean_reward
+                if t in ("eval", "noimp"):
+                    b = o.best_mean_reward if t == "eval" else o.last_best_mean_reward
                     bests.append([nid, None if b == -math.inf else ratj(F(b))])
             out["learns"].append({
                 "events": rec.events[e0:], "roots": rec.roots[r0:], "snaps": rec.snaps[s0:], "evals": rec.evals[v0:],
@@ -495,6 +605,8 @@ def run_impl(ctx, case):
         out["files"] = sorted(os.listdir(os.path.join(tmpdir, "ck"))) if os.path.isdir(os.path.join(tmpdir, "ck")) else []
     finally:
         cbmod.evaluate_policy, BaseAlgorithm.save, BaseAlgorithm._init_callback = orig_eval, orig_save, orig_init
+        for c, o in dump_orig.items():
+            c.dump_logs = o
         shutil.rmtree(tmpdir, ignore_errors=True)
     return out
 
@@ -511,7 +623,8 @@ class Viol:
         if key in self.seen:
             return
         self.seen.add(key)
-        self.ctx.report.violation(what, self.case, sig, detail)
+        case = self.case
+        self.ctx.report.violation(what, case, sig, detail)
 
 
 def true_dones(out, g):
@@ -527,20 +640,23 @@ def dones_stream(out):
 def oracle(ctx, case, out):
     viol = Viol(ctx, case)
     idx = index_tree(case["tree"])
+    lists_above = index_tree.lists_above
     n_envs = case["n_envs"]
     on_policy = case["algo"] in ON_POLICY
     cnt = {i: 0 for i in idx}          # on_step invocations per node so far (n_calls must equal it)
     last = {i: 0 for i in idx}         # EveryNTimesteps: time of the last trigger
     best = {i: -math.inf for i in idx}
     neps = {i: 0 for i in idx}
-    fresh_root = case["pylist"]
+    fcnt = {i: 0 for i in idx}         # invocations of a function callback (its own count, never reset)
+    hist = {i: [] for i in idx}        # StopTrainingOnNoModelImprovement: (call index, parent's best) per call
+    fresh_root = rootmode(case) != "obj"
     def cause(nid):
         # informative only: the node sits below a callback_on_new_best edge (finding K-C13-b, fixed by 4379697)
         return {"under_new_best": True} if idx[nid][2] else {}
 
     def walk(E):
         nid, ep, ch = E["id"], E["ep"], E["ch"]
-        nd, depth, ub, ue = idx[nid]
+        nd, depth, ub, ue, pe = idx[nid]
         t = nd["t"]
         got = [(c["id"], c["ep"]) for c in ch]
         rets = {c["id"]: c["ret"] for c in ch}
@@ -563,8 +679,8 @@ def oracle(ctx, case, out):
             exp = [(c["id"], ep) for c in nd["ch"]]
             if ep == "on_step":
                 exp_ret = all(rets.get(c["id"]) is not False for c in nd["ch"])
-        elif t == "everyN":
-            c = nd["ch"]["id"]
+        elif t in ("everyN", "logN"):
+            c = nd["ch"]["id"] if t == "everyN" else nd["cid"]
             if ep in ("on_training_start", "update_locals"):
                 exp = [(c, ep)]
             elif ep == "on_step":
@@ -622,6 +738,45 @@ def oracle(ctx, case, out):
         elif t == "leaf":
             if ep == "on_step":
                 exp_ret = cnt[nid] not in nd["stops"]
+        elif t == "fn":
+            if ep == "on_step":
+                fcnt[nid] += 1
+                exp_ret = fcnt[nid] not in nd["stops"]
+                if nd.get("log") and E.get("dumps", 0) != 1:
+                    viol("LogEveryNTimesteps does not dump the logs exactly once per trigger", {"kind": "log_dump"},
+                         {"id": nid, "dumps": E.get("dumps", 0)})
+        elif t == "none":
+            if ep == "on_step":
+                exp_ret = True
+        elif t == "thr":
+            if ep == "on_step":
+                if pe is None or E["raised"]:
+                    nested = pe is not None and lists_above[nid] >= 2
+                    viol("StopTrainingOnRewardThreshold raised although its position's parent is an EvalCallback" if pe is not None
+                         else "StopTrainingOnRewardThreshold raised", {"kind": "raise", "node": t, **({"nested_lists": True} if nested else {})},
+                         {"id": nid, "lists_between_it_and_the_EvalCallback": lists_above[nid]})
+                else:
+                    # training continues iff the parent's best mean reward is still below the threshold
+                    exp_ret = best[pe] < nd["thr"]
+        elif t == "noimp":
+            if ep == "on_step":
+                if pe is None or E["raised"]:
+                    nested = pe is not None and lists_above[nid] >= 2
+                    viol("StopTrainingOnNoModelImprovement raised although its position's parent is an EvalCallback" if pe is not None
+                         else "StopTrainingOnNoModelImprovement raised", {"kind": "raise", "node": t, **({"nested_lists": True} if nested else {})},
+                         {"id": nid, "lists_between_it_and_the_EvalCallback": lists_above[nid]})
+                else:
+                    h = hist[nid]
+                    h.append((cnt[nid], best[pe]))
+                    # number of trailing evaluations (counted only after min_evals) without a new best
+                    streak = 0
+                    for j in range(len(h) - 1, -1, -1):
+                        prev = h[j - 1][1] if j > 0 else -math.inf
+                        if h[j][0] > nd["min"] and not (h[j][1] > prev):
+                            streak += 1
+                        else:
+                            break
+                    exp_ret = not (streak > nd["max"])
         if got != exp and not E["raised"]:
             missing = [x for x in exp if x not in got]
             extra = [x for x in got if x not in exp]
@@ -643,8 +798,16 @@ def oracle(ctx, case, out):
                 sig.update(cause(nid))
             viol(what, sig, {"id": nid, "expected": exp, "got": got, "num_timesteps": E["mnum"], "n_calls": E["nc"]})
         if ep == "on_step" and exp_ret is not None and not E["raised"] and (E["ret"] is not False) != exp_ret:
-            viol("on_step() answer of a callback is not what its children / its rule imply",
-                 {"kind": "answer", "node": t, **cause(nid)}, {"id": nid, "answer": E["ret"], "expected": exp_ret})
+            rule = {
+                "thr": "StopTrainingOnRewardThreshold does not continue exactly while the parent's best mean reward < threshold",
+                "noimp": "StopTrainingOnNoModelImprovement does not stop exactly when more than max_no_improvement_evals "
+                         "consecutive evaluations after min_evals brought no new best",
+                "maxep": "StopTrainingOnMaxEpisodes does not stop exactly when the episodes finished in all sub-environments "
+                         "reach max_episodes * n_envs",
+                "fn": "the answer of a function callback is not handed up by ConvertCallback",
+            }.get(t, "on_step() answer of a callback is not what its children / its rule imply")
+            viol(rule, {"kind": "answer", "node": t, **cause(nid)}, {"id": nid, "answer": E["ret"], "expected": exp_ret,
+                                                                      "n_calls": E["nc"], "num_timesteps": E["mnum"]})
         for c in ch:
             walk(c)
 
@@ -654,7 +817,7 @@ def oracle(ctx, case, out):
         total = l["total"] if l["reset"] else l["total"] + L["prev_num"]
         # documented re-arming of EveryNTimesteps when the counter went backwards
         for i in idx:
-            if idx[i][0]["t"] == "everyN":
+            if idx[i][0]["t"] in ("everyN", "logN"):
                 last[i] = min(last[i], num0)
         if fresh_root:
             cnt[case["tree"]["id"]] = 0
@@ -769,7 +932,7 @@ def oracle(ctx, case, out):
         for ev in L["events"]:
             by_leaf.setdefault(ev[0], []).append(ev)
         root_seq = [EP_SHORT[e["ep"]] for e in roots if e["ep"] != "update_locals" and not e["raised"]]
-        for nid, (nd, depth, ub, ue) in idx.items():
+        for nid, (nd, depth, ub, ue, pe) in idx.items():
             if nd["t"] != "leaf":
                 continue
             seq = [ev[1] for ev in by_leaf.get(nid, [])]
@@ -789,6 +952,12 @@ def oracle(ctx, case, out):
     # ---- final best_mean_reward ------------------------------------------------------------------
     if out["learns"] and not out["learns"][-1]["raised"]:
         for nid, b in out["learns"][-1]["bests"]:
+            if idx[nid][0]["t"] == "noimp":
+                want = hist[nid][-1][1] if hist[nid] else -math.inf
+                if b != (None if want == -math.inf else ratj(F(want))):
+                    viol("last_best_mean_reward is not the parent's best at the last call", {"kind": "last_best"},
+                         {"id": nid, "got": b})
+                continue
             exp = None if best[nid] == -math.inf else ratj(F(best[nid]))
             if b != exp:
                 viol("best_mean_reward is not the maximum of the evaluation means", {"kind": "best"}, {"id": nid, "got": b, "expected": exp})
@@ -802,7 +971,7 @@ def model_op(case, out):
     return {
         "op": "run", "tree": lean_tree(case["tree"]), "n_envs": case["n_envs"], "on_policy": case["algo"] in ON_POLICY,
         "kind": "steps" if case["unit"] == "step" else "episodes", "k": case["k"], "dones": dones_stream(out),
-        "evals": evals, "learns": case["learns"][:len(out["learns"])], "fuel": 20000, "fresh_root": bool(case["pylist"]),
+        "evals": evals, "learns": case["learns"][:len(out["learns"])], "fuel": 20000, "fresh_root": rootmode(case) != "obj",
     }
 
 
@@ -868,8 +1037,8 @@ def compare(ctx, case, out, mo):
 def classify(ctx, case, out):
     rep = ctx.report
     idx = index_tree(case["tree"])
-    depth = max(d for _, d, _, _ in idx.values())
-    kinds = {nd["t"] for nd, _, _, _ in idx.values()}
+    depth = max(v[1] for v in idx.values())
+    kinds = {v[0]["t"] for v in idx.values()}
     stop_fired = any(ev[1] == "step" and ev[5] is False for L in out["learns"] for ev in L["events"])
     rep.count(f"algo:{case['algo']}")
     rep.count(f"n_envs:{case['n_envs']}")
@@ -880,10 +1049,13 @@ def classify(ctx, case, out):
     rep.count(f"tree_nodes:{min(len(idx), 10)}{'+' if len(idx) > 10 else ''}")
     for k in sorted(kinds):
         rep.count(f"has:{k}")
-    if case["pylist"]:
-        rep.count("root_as_python_list")
+    rep.count("root:" + rootmode(case))
     if stop_fired:
         rep.count("stop_request_fired")
+    for L in out["learns"]:
+        for ev in L["events"]:
+            if ev[1] == "step" and ev[5] is False and ev[0] in idx:
+                rep.count("false_answer_from:" + idx[ev[0]][0]["t"])
     if any(l["reset"] for l in case["learns"][1:]):
         rep.count("later_learn_with_reset")
     if any(not l["reset"] for l in case["learns"][1:]):
